@@ -14,5 +14,6 @@ def run(tier, seed, limit=0):
     if limit:
         scs = scs[:limit]
     chk.run_scenarios(scs, "Trace_VscRand")
+    chk.run_mc("MC_VscRand", {"MaxLevel": 4 if tier == "quick" else 6}, workers=12, label="A-level API machine on world W-flags")
     return chk.finish(LEVEL, "family E/S programs x exhaustive truth tables; non-trivial = accepted scenario with distinct event content",
                       ["TLC 1.8; BV/Expr reference semantics; world->DSL compiler"])
